@@ -15,6 +15,7 @@ import (
 
 // gor is one goroutine of the profile reduced to what identifies "which piece of code left it behind".
 type gor struct {
+	ID    string
 	State string
 	Sig   string   // innermost receptor/quic-go frame + " <- " + creator
 	Stack []string // function names, innermost first
@@ -52,7 +53,7 @@ func goroutines() []gor {
 		if m == nil {
 			continue
 		}
-		g := gor{State: m[2]}
+		g := gor{ID: m[1], State: m[2]}
 		creator := ""
 		for _, l := range lines[1:] {
 			if strings.HasPrefix(l, "\t") {
